@@ -241,6 +241,129 @@ def simple_commands(R, I, tier):
                 R.reach_any(f'{full}: success reachable', [s.pc for s in oks])
                 R.samples.append({'case': full, 'paths': len(done)})
 
+def add_key_command(R, I, tier):
+    """`tuftool root add-key -k <source> -r <role>...` from an arbitrary file state: the key table is a small table of symbolic keys (the key being
+    added may already be in it), key ids are a collision-free function of the key; success => written once, without signatures, the key is in the
+    table under its id, each named role lists the id exactly once more than before unless it already did, nothing else changes"""
+    RTn = variants('RoleType')
+    fn = cmd_fn(I, 'add_key')
+    KID = z3.Function('KeyIdOf', z3.BitVecSort(16), z3.BitVecSort(8))
+    role_sets = [['Root'], ['Targets', 'Root']] if tier == 'quick' else [['Root'], ['Snapshot'], ['Targets', 'Root'], ['Timestamp', 'Snapshot', 'Targets']]
+    R.bounds['add-key'] = 'key table of 0..2 symbolic keys (the added key may be one of them), one key source, 1..3 named roles, 2 key ids per role (may equal the added key\'s id), 0..2 signatures present'
+    R.assumptions.append('add-key: key ids are a collision-free function of the key for the keys in play; the loaded key table is well formed (C13); parse_key_source / KeySource::as_sign succeed or fail without touching the file')
+    for roles in role_sets:
+        for ntab in (0, 1, 2):
+            for nsig in ((1,) if tier == 'quick' else (0, 1, 2)):
+                full = f'add-key -r {",".join(roles)} [{ntab} keys in the table, {nsig} signatures]'
+                st = State(); st.env['fs'] = {}
+                file0, sig_ids = mk_root(st, 'cur', {rn: 2 for rn in RTn}, nsig)
+                tab = [z3.BitVec(f'tabkey{i}', 16) for i in range(ntab)]; newk = z3.BitVec('added_key', 16)
+                for v in tab + [newk]: st.pc.append(v != 0)
+                for a_, b_ in itertools.combinations(tab + [newk], 2): st.pc.append(z3.Implies(KID(a_) == KID(b_), a_ == b_))
+                if ntab > 1: st.pc.append(tab[0] != tab[1])
+                rootv = fld(file0, 'Signed', 'signed')
+                rootv.fields[(None, F('Root', 'keys'))] = Obj('smap', entries=[(keyid(KID(v)), Obj('key', vid=v)) for v in tab])
+                before = stdm.deep_clone(I, st, file0)
+                def m_parse_ks(I_, s, fr, c, a, d, de, rb):
+                    okf = z3.Bool(fresh_name('key_source_parses'))
+                    return Forks([(okf, mk_ok(boxed(s, Obj('key_source'))), None), (z3.Not(okf), mk_err(error('UnrecognizedScheme')), None)])
+                def m_as_sign(I_, s, fr, c, a, d, de, rb): return leaf_future('c20_as_sign')
+                def op_as_sign(I_, s, fut):
+                    okf = z3.Bool(fresh_name('key_readable'))
+                    return Forks([(okf, mk_ready(mk_ok(boxed(s, Obj('signer')))), None), (z3.Not(okf), mk_ready(mk_err(Obj('boxed_error'))), None)])
+                LEAF_OPS['c20_as_sign'] = op_as_sign
+                def m_tuf_key(I_, s, fr, c, a, d, de, rb): return Obj('key', vid=newk)
+                def m_key_id(I_, s, fr, c, a, d, de, rb):
+                    okf = z3.Bool(fresh_name('key_id_ok'))
+                    return Forks([(okf, mk_ok(keyid(KID(dr(I_, s, a[0]).d['vid']))), None), (z3.Not(okf), mk_err(Obj('schema_error')), None)])
+                def m_keys_iter(I_, s, fr, c, a, d, de, rb):
+                    m = dr(I_, s, a[0]); cells = [s.alloc(Adt('tuple', None, {(None, 0): Ref(s.alloc(k)), (None, 1): Ref(s.alloc(v))})) for k, v in m.d['entries']]
+                    return Obj('iter', vec=Ref(s.alloc(Obj('vec', elems=cells))), pos=0, owned=False)
+                def h_find(I_, s, fr):
+                    d = fr.data
+                    if 'ret' in d:
+                        hit = d.pop('ret'); hit = hit if z3.is_expr(hit) else z3.BoolVal(bool(hit)); out = []
+                        if I_.feasible(s, extra=hit):
+                            s2 = s.clone(); s2.pc.append(hit); I_.do_return(s2, mk_some(s2.heap[d['elems'][d['i']]])); out.append(s2)
+                        if I_.feasible(s, extra=z3.Not(hit)):
+                            s.pc.append(z3.Not(hit)); d['i'] += 1; out.append(s)
+                        return out
+                    if d['i'] >= len(d['elems']): I_.do_return(s, mk_none()); return [s]
+                    fnc = I_.resolve_closure(s.heap[d['clos']].ty)
+                    I_.push_call(s, fnc, [Ref(d['clos']), Ref(d['elems'][d['i']])], None, None); return [s]
+                def m_find(I_, s, fr, c, a, d, de, rb):
+                    it = dr(I_, s, a[0]); vec = dr(I_, s, it.d['vec'])
+                    s.frames.append(ModelFrame(h_find, {'elems': list(vec.d['elems'][it.d['pos']:]), 'i': 0, 'clos': s.alloc(mat(I_, s, a[1]))}, de, rb)); return PUSHED
+                def m_key_eq(I_, s, fr, c, a, d, de, rb): return dr(I_, s, a[0]).d['vid'] == dr(I_, s, a[1]).d['vid']
+                def m_contains_key(I_, s, fr, c, a, d, de, rb):
+                    m = dr(I_, s, a[0]); k = dr(I_, s, a[1]).d['nid']
+                    return z3.Or([k == dr(I_, s, ko).d['nid'] for ko, _ in m.d['entries']] + [z3.BoolVal(False)])
+                def m_map_len(I_, s, fr, c, a, d, de, rb): return BV64(len(dr(I_, s, a[0]).d['entries']))
+                def m_hex(I_, s, fr, c, a, d, de, rb): return Obj('str', s=None, pieces=['{hex}'])
+                def m_print(I_, s, fr, c, a, d, de, rb): return unit()
+                def m_fail(I_, s, fr, c, a, d, de, rb): return mk_err(error('KeyDuplicate'))
+                def m_map_err_id(I_, s, fr, c, a, d, de, rb): return mat(I_, s, a[0])
+                def m_push_id(I_, s, fr, c, a, d, de, rb):
+                    v = dr(I_, s, a[0]); v.d['elems'] = v.d['elems'] + [s.alloc(mat(I_, s, a[1]))]; return unit()
+                ms = [(RXc(r'^parse_key_source$'), m_parse_ks), (RXc(r'^<dyn KeySource as KeySource>::as_sign'), m_as_sign), (RXc(r'Sign>::tuf_key$'), m_tuf_key), (RXc(r'^(tough::schema::key::)?Key::key_id$'), m_key_id),
+                      (RXc(r'^HashMap::<Decoded<Hex>, (tough::schema::key::)?Key>::iter$'), m_keys_iter), (RXc(r'^<std::collections::hash_map::Iter<.*Key> as Iterator>::find::<'), m_find),
+                      (RXc(r'^<(tough::schema::key::)?Key as PartialEq>::eq$'), m_key_eq), (RXc(r'^HashMap::<Decoded<Hex>, (tough::schema::key::)?Key>::contains_key::<'), m_contains_key),
+                      (RXc(r'^HashMap::<Decoded<Hex>, (tough::schema::key::)?Key>::len$'), m_map_len), (RXc(r'^hex::encode::<'), m_hex), (RXc(r'^std::io::_print$'), m_print), (RXc(r'^KeyDuplicateSnafu::<.*>::fail::<'), m_fail),
+                      (RXc(r'^std::result::Result::<Decoded<Hex>, error::Error>::map_err::<'), m_map_err_id), (RXc(r'^Vec::<Decoded<Hex>>::push$'), m_push_id), (RXc(r'^<Vec<Decoded<Hex>> as Deref>::deref$'), m_identity),
+                      (RXc(r'^<std::string::String as Deref>::deref$'), m_identity), (RXc(r'^<Decoded<Hex> as Clone>::clone$'), stdm.m_clone_deep),
+                      (RXc(r'^<&\[RoleType\] as IntoIterator>::into_iter$'), stdm.m_vec_iter)] + editor_fmt_models()
+                saved = list(I.models); I.models[:0] = ms
+                try:
+                    roles_arg = Ref(st.alloc(Obj('vec', elems=[st.alloc(rt_val(RT(rn))) for rn in roles])))
+                    srcs = Ref(st.alloc(Obj('vec', elems=[st.alloc(Obj('str', s='file:///key.pem'))])))
+                    done = run_cmd(I, st, fn, [Obj('path', key='root.json'), roles_arg, srcs], {'root.json': file0})
+                finally:
+                    I.models[:] = saved
+                R.check_interp_clean(I, full)
+                oks = []
+                def dec(m, full=full, tab=tab): return {'kind': 'root-subcommand', 'command': full, 'already_in_table': any(m.eval(v == newk, model_completion=True) for v in tab)}
+                for s in done:
+                    R.paths += 1
+                    tag, _ = classify(s.result)
+                    writes = [e for e in s.events if e[0] == 'write_file']
+                    if tag != 'Ok':
+                        R.obligation(f'{full}: an error leaves the previous file intact (nothing was written)', s.pc, z3.BoolVal(not writes), decode=dec, group='error-leaves-file'); continue
+                    oks.append(s)
+                    R.obligation(f'{full}: success => the file is written exactly once, to the given path', s.pc, z3.BoolVal(len(writes) == 1 and writes[0][1] == 'root.json'), decode=dec, group='written-once')
+                    if not writes: continue
+                    out = writes[0][2]; sigs = dr(I, s, fld(out, 'Signed', 'signatures'))
+                    R.obligation(f'{full}: the content changed (a role lists a further key id and / or the key table grew), so every existing signature is removed', s.pc, z3.BoolVal(len(sigs.d['elems']) == 0), decode=dec, group='signatures-cleared')
+                    newr = fld(out, 'Signed', 'signed'); kt = dr(I, s, fld(newr, 'Root', 'keys'))
+                    def lookup(k):
+                        t = stdm.V0()
+                        for ko, vo in kt.d['entries']: t = z3.If(k == dr(I, s, ko).d['nid'], dr(I, s, vo).d['vid'], t)
+                        return t
+                    anyk = z3.BitVec('anykeyid', 8)
+                    R.obligation(f'{full}: the key is in the key table under its own id, every earlier key is still there, nothing else appeared', s.pc,
+                                 z3.And([lookup(KID(newk)) == newk] + [lookup(KID(v)) == v for v in tab] + [z3.Or([lookup(anyk) == 0] + [z3.And(anyk == KID(v), lookup(anyk) == v) for v in tab + [newk]])]), decode=dec, group='content')
+                    for rn in RTn:
+                        ids, thr = role_ids(s, out, rn); old_ids, old_thr = role_ids(st, before, rn)
+                        if rn in roles:
+                            had = z3.Or([x == KID(newk) for x in old_ids])
+                            same = z3.And([z3.BoolVal(len(ids) == len(old_ids))] + [a == b for a, b in zip(ids, old_ids)])
+                            app = z3.And([z3.BoolVal(len(ids) == len(old_ids) + 1)] + [a == b for a, b in zip(ids, old_ids)] + ([ids[-1] == KID(newk)] if len(ids) == len(old_ids) + 1 else []))
+                            R.obligation(f'{full}: role {rn} lists the key id exactly once more than before, unless it already listed it; threshold untouched', s.pc, z3.And(z3.If(had, same, app), thr == old_thr), decode=dec, group='content')
+                        else:
+                            R.obligation(f'{full}: role {rn} is untouched', s.pc, z3.And([a == b for a, b in zip(ids, old_ids)] + [z3.BoolVal(len(ids) == len(old_ids)), thr == old_thr]), decode=dec, group='content')
+                    R.obligation(f'{full}: version, expiration and consistent-snapshot flag untouched', s.pc, z3.And(fld(newr, 'Root', 'version') == fld(fld(before, 'Signed', 'signed'), 'Root', 'version'),
+                                 fld(newr, 'Root', 'expires') == fld(fld(before, 'Signed', 'signed'), 'Root', 'expires')), decode=dec, group='content')
+                R.reach_any(f'{full}: success reachable', [s.pc for s in oks])
+                if ntab: R.reach_any(f'{full}: success with a key that is already in the table', [s.pc for s in oks], z3.Or([v == newk for v in tab]))
+                R.samples.append({'case': full, 'paths': len(done)})
+
+def boxed(s, v):
+    """Box<dyn T> as the MIR takes it apart: Box.0 (Unique) .0 (NonNull) transmuted to a raw pointer"""
+    return Adt('Box', None, {(None, 0): Adt('Unique', None, {(None, 0): Ref(s.alloc(v))})})
+
+def editor_fmt_models():
+    import editor
+    return editor.install_format_models()
+
 def sign_command(R, I, tier):
     fn = cmd_fn(I, 'sign')
     RTn = variants('RoleType')
@@ -338,13 +461,14 @@ def sign_command(R, I, tier):
 def check(R, tier):
     I = R.interp('tuftool', also=('tough',)); install_world(I)
     R.bounds.update({'file state': 'arbitrary version / expiry / thresholds / key table; 2 key ids per role (symbolic, may coincide); 0..2 (quick) / 0..3 (thorough) signatures already in the file, one per key id',
-                     'commands': 'bump-version, expire, set-version, set-threshold <each role>, remove-key <id> [each role], sign with 0..2/3 usable keys, with and without --cross-sign / --ignore-threshold',
+                     'commands': 'bump-version, expire, set-version, set-threshold <each role>, remove-key <id> [each role], add-key <source> -r <roles>, sign with 0..2/3 usable keys, with and without --cross-sign / --ignore-threshold',
                      'sequences': 'one step from an arbitrary file state (inductive); sequences of <= 12 real invocations in the native sweep',
                      'sign: role thresholds': 'root and targets arbitrary; snapshot and timestamp assumed to list at least `threshold` key ids (same loop body as targets)'})
     R.assumptions += ['load_file / write_file (tuftool main.rs: temp file + persist) either fail without effect or read / atomically replace the file', 'SignedRole::new: C10 contract (signatures only by distinct keys listed for the role in the given key holder)',
                       'signatures already in the file are over the current content (every content-changing subcommand removes them: checked here) and carry one signature per key id',
-                      'init, add-key and gen-rsa-key are covered by the native sweep only (key parsing / openssl)']
+                      'init and gen-rsa-key are covered by the native sweep only (openssl); add-key with the key source as an oracle (parses or not, readable or not, yields one key)']
     simple_commands(R, I, tier)
+    add_key_command(R, I, tier)
     sign_command(R, I, tier)
     native(R, tier)
 
